@@ -627,14 +627,13 @@ fn find_tsig_algorithm_or_write_error(
         Some(algorithm)
     } else {
         response.set_rcode(Rcode::NOTAUTH);
-        response
-            .set_tsig(
-                writer::TsigMode::Unsigned {
-                    algorithm: tsig_rr.algorithm().to_owned(),
-                },
-                PreparedTsigRr::new_from_read(tsig_rr, now, TSIG_FUDGE, ExtendedRcode::BADKEY),
-            )
-            .unwrap();
+        set_tsig_if_it_fits(
+            response,
+            writer::TsigMode::Unsigned {
+                algorithm: tsig_rr.algorithm().to_owned(),
+            },
+            PreparedTsigRr::new_from_read(tsig_rr, now, TSIG_FUDGE, ExtendedRcode::BADKEY),
+        );
         None
     }
 }
@@ -659,14 +658,13 @@ fn find_tsig_key_or_write_error<'k>(
         Some(key)
     } else {
         response.set_rcode(Rcode::NOTAUTH);
-        response
-            .set_tsig(
-                writer::TsigMode::Unsigned {
-                    algorithm: tsig_rr.algorithm().to_owned(),
-                },
-                PreparedTsigRr::new_from_read(tsig_rr, now, TSIG_FUDGE, ExtendedRcode::BADKEY),
-            )
-            .unwrap();
+        set_tsig_if_it_fits(
+            response,
+            writer::TsigMode::Unsigned {
+                algorithm: tsig_rr.algorithm().to_owned(),
+            },
+            PreparedTsigRr::new_from_read(tsig_rr, now, TSIG_FUDGE, ExtendedRcode::BADKEY),
+        );
         None
     }
 }
@@ -728,13 +726,37 @@ fn verify_tsig_and_write_tsig_rr(
         };
 
     response.set_rcode(rcode);
-    response
-        .set_tsig(
-            mode,
-            PreparedTsigRr::new_from_read(tsig_rr, now, TSIG_FUDGE, tsig_err),
-        )
-        .unwrap();
+    let attached = set_tsig_if_it_fits(
+        response,
+        mode,
+        PreparedTsigRr::new_from_read(tsig_rr, now, TSIG_FUDGE, tsig_err),
+    );
+    if rcode == Rcode::NOERROR && !attached {
+        // The request was authentic, but we cannot send a signed
+        // response. Do not answer it as if it were unsigned.
+        response.set_rcode(Rcode::SERVFAIL);
+        return false;
+    }
     rcode == Rcode::NOERROR
+}
+
+/// Adds a TSIG RR to the response if there is room for it. With long key
+/// and algorithm names (each up to 255 octets) the question and the TSIG
+/// RR alone can exceed the 512-octet limit of a UDP response without
+/// EDNS; [RFC 8945 § 5.3] has no provision for that case. Rather than
+/// panicking, we then send the response (whose RCODE the caller has
+/// already set) truncated and without a TSIG RR; the client will discard
+/// it and can retry over TCP. Returns whether the TSIG RR was added.
+///
+/// [RFC 8945 § 5.3]: https://datatracker.ietf.org/doc/html/rfc8945#section-5.3
+fn set_tsig_if_it_fits(response: &mut Writer, mode: writer::TsigMode, rr: PreparedTsigRr) -> bool {
+    match response.set_tsig(mode, rr) {
+        Ok(()) => true,
+        Err(_) => {
+            response.set_tc(true);
+            false
+        }
+    }
 }
 
 ////////////////////////////////////////////////////////////////////////
